@@ -495,6 +495,9 @@ class Generator(AbstractODSGenerator):
 
     def __generate_asset(self, computed_data: ComputedData, output_file: Any, summary_row_index: int) -> int:
         asset: str = computed_data.asset
+        # Transactions are keyed by spreadsheet row, which is unique only within an asset: forget the rows of the previous asset,
+        # otherwise a transaction hidden by the time filters gets linked to whatever another asset had on the same row
+        self.__in_out_sheet_transaction_2_row.clear()
         transaction_sheet_name: str = self.get_in_out_sheet_name(asset)
         output_sheet_name: str = self.get_tax_sheet_name(asset)
 
